@@ -6,10 +6,13 @@ cd /repo || exit 2
 if [ -n "$(git status --porcelain --untracked-files=no)" ]; then echo "repo not clean"; exit 2; fi
 git apply "$patch" || { echo "patch does not apply"; exit 2; }
 cd /verif
+rm -rf .work/evidence_backup && cp -r evidence .work/evidence_backup
 for p in "$@"; do
   tools/vcheck.py "$p" > .work/seed_$p.log 2>&1; rc=$?
   echo "== $p exit=$rc"; grep -E "^(VIOLATION|KNOWN-FINDING|C[0-9]+ tier)" .work/seed_$p.log | cut -c1-220 | head -8
 done
 cd /repo && git checkout -- . 
+# evidence written while a seeded change was applied must never be kept
+rm -rf /verif/evidence && mv /verif/.work/evidence_backup /verif/evidence
 cd /verif && PYTHONPATH=/repo /venv/bin/python tools/gen_layer_g.py --validate 5 > /dev/null 2>&1
 rm -rf /verif/replay
